@@ -149,9 +149,15 @@ func Truth(v interface{}) bool {
 
 // Repr is the canonical rendering of a value used in callback logs; it works on
 // model values and on the Go values the library hands to callbacks alike.
-func Repr(v interface{}) string {
+func Repr(v interface{}) string { return reprDepth(v, 0) }
+
+// reprDepth stops at nesting depth 12: context values may contain themselves.
+func reprDepth(v interface{}, depth int) string {
 	if v == nil {
 		return "null"
+	}
+	if depth > 12 {
+		return "<deeper>"
 	}
 	switch x := v.(type) {
 	case bool:
@@ -174,13 +180,13 @@ func Repr(v interface{}) string {
 	case reflect.Slice, reflect.Array:
 		parts := make([]string, rv.Len())
 		for i := range parts {
-			parts[i] = Repr(rv.Index(i).Interface())
+			parts[i] = reprDepth(rv.Index(i).Interface(), depth+1)
 		}
 		return "[" + strings.Join(parts, ",") + "]"
 	case reflect.Map:
 		var parts []string
 		for _, k := range rv.MapKeys() {
-			parts = append(parts, fmt.Sprint(k.Interface())+":"+Repr(rv.MapIndex(k).Interface()))
+			parts = append(parts, fmt.Sprint(k.Interface())+":"+reprDepth(rv.MapIndex(k).Interface(), depth+1))
 		}
 		sort.Strings(parts)
 		return "{" + strings.Join(parts, ",") + "}"
@@ -188,10 +194,10 @@ func Repr(v interface{}) string {
 		if rv.IsNil() {
 			return "null"
 		}
-		return Repr(rv.Elem().Interface())
+		return reprDepth(rv.Elem().Interface(), depth+1)
 	}
 	if sv, ok := v.(interface{ Value() interface{} }); ok {
-		return Repr(sv.Value())
+		return reprDepth(sv.Value(), depth+1)
 	}
 	return fmt.Sprintf("<%T>", v)
 }
